@@ -16,7 +16,7 @@ fn main() {
     let prop = Property {
         id: "C20",
         level: "exploration",
-        rule: "the same object bytes and configuration are given to senders through: in-memory buffer, Cursor, a real File, BufReader<File>, and a seekable ChunkedReader returning short reads on a schedule (1 byte, 7, 10, 4096, mixed, random sizes); boundary lattice of object sizes x 5 FEC schemes x block byte sizes below and above 8 KiB x transfer counts 1-3 x interleave 1-3; oracle (metamorphic): the object packet sequences are byte-identical to the buffer sender's (same virtual instants, same TOI), transfers 2..n equal transfer 1 apart from the close-object flag, and the chunked source saw seek(Start(0)) before every transfer; (huge_stream) No-Code stream objects of 2^32-1 .. 2^33+5 bytes whose content is a function of the offset (full and short reads): every packet of the transfer is checked against the reference partition and the content at its offset, all source symbols once, close-object flag last; a case is one object x all sources, non-trivial when object packets were compared; distinct = object shape",
+        rule: "the same object bytes and configuration are given to senders through: in-memory buffer, Cursor, a real File, BufReader<File>, flute's create_from_file with and without RAM cache, and a seekable ChunkedReader returning short reads on a schedule (1 byte, 7, 10, 4096, mixed, random sizes); boundary lattice of object sizes x 5 FEC schemes x block byte sizes below and above 8 KiB x transfer counts 1-3 x interleave 1-3; oracle (metamorphic): the object packet sequences are byte-identical to the buffer sender's (same virtual instants, same TOI), transfers 2..n equal transfer 1 apart from the close-object flag, and the chunked source saw seek(Start(0)) before every transfer; (huge_stream) No-Code stream objects of 2^32-1 .. 2^33+5 bytes whose content is a function of the offset (full and short reads): every packet of the transfer is checked against the reference partition and the content at its offset, all source symbols once, close-object flag last; a case is one object x all sources, non-trivial when object packets were compared; distinct = object shape",
         assumptions: vec![
             "sources that return errors or lie about their length are out of scope; stream sources cannot be combined with content encoding (flute refuses)".into(),
             "FDT packets are not compared (File order and MD5 are the same, but instance ids are irrelevant here)".into(),
@@ -82,7 +82,8 @@ fn main() {
             }
             let want = object_packets(&base);
             let chunk_sets: Vec<Vec<usize>> = vec![vec![1], vec![7], vec![10], vec![4096], vec![1, 2, 3, 1000], (0..5).map(|_| rng.range(1, 3000) as usize).collect(), vec![oti.e as usize], vec![oti.e as usize * oti.b as usize - 1]];
-            let mut sources: Vec<(String, SourceSpec)> = vec![("cursor".into(), SourceSpec::Cursor), ("file".into(), SourceSpec::File), ("bufreader".into(), SourceSpec::BufFile)];
+            let mut sources: Vec<(String, SourceSpec)> = vec![("cursor".into(), SourceSpec::Cursor), ("file".into(), SourceSpec::File), ("bufreader".into(), SourceSpec::BufFile),
+                ("create_from_file(ram)".into(), SourceSpec::PathRam), ("create_from_file(no ram)".into(), SourceSpec::PathNoRam)];
             let nchunk = if ctx.tier == Tier::Thorough { chunk_sets.len() } else { 4 };
             for (k, c) in chunk_sets.iter().enumerate() {
                 if (k + i) % chunk_sets.len() < nchunk {
